@@ -371,14 +371,15 @@ Qed.
 
 (* every guarded history on a model built from ANY option list, reproduced by the model, satisfies
    the property predicate (a predicted panic of NewModel has no history) *)
-Theorem judge_sound_cfg : forall opts panicked o0 steps,
-  C19_guard (KCfg opts panicked o0 steps) = true -> agrees (KCfg opts panicked o0 steps) = true ->
-  C19_ok (KCfg opts panicked o0 steps) = true.
+Theorem judge_sound_cfg : forall opts panicked o0 steps evclk,
+  C19_guard (KCfg opts panicked o0 steps evclk) = true -> agrees (KCfg opts panicked o0 steps evclk) = true ->
+  C19_ok (KCfg opts panicked o0 steps evclk) = true.
 Proof.
-  intros opts panicked o0 steps G A. cbn [C19_guard] in G. cbn [agrees] in A. cbn [C19_ok].
+  intros opts panicked o0 steps evclk G A. cbn [C19_guard] in G. cbn [agrees] in A. cbn [C19_ok].
   apply Bool.andb_true_iff in G. destruct G as [G _].
   destruct (new_model opts) as [s0|] eqn:N.
-  - apply Bool.andb_true_iff in A. destruct A as [A A2].
+  - apply Bool.andb_true_iff in A. destruct A as [A _].
+    apply Bool.andb_true_iff in A. destruct A as [A A2].
     apply Bool.andb_true_iff in A. destruct A as [A0 A1].
     apply Bool.negb_true_iff in A0. subst panicked. cbn [orb].
     pose proof (new_model_inv opts s0 N (cfg_ok_normal opts G)) as I.
